@@ -8,7 +8,7 @@ import ast
 from .base import FORMAL_BASE, check_call_bases
 from .dataflow import origins
 from .model import DEFAULT, MISSING, calls_in, unparse
-from .rules import _kind_int_handled, calls_from, path_conds, cond_implies_none, r_order, r_tol_forward
+from .rules import _kind_int_handled, r_scalar_dim_expand, calls_from, path_conds, cond_implies_none, r_order, r_tol_forward
 
 THREAD_PARAMS = ("dim", "dims", "rtol", "atol", "tol", "seed", "solver", "level", "reps", "inv_perm", "row_only", "is_real")
 
@@ -63,6 +63,7 @@ def sweep(ctx, roots=None):
                     ctx.ob("R-KIND", g, f"{p.name}: int alternative handled", False, f"`{p.name}` is declared `{ann}` but {v[1]}", v[2], chain=chain)
                 elif v[0] is True:
                     ctx.ob("R-KIND", g, f"{p.name}: int alternative handled", True, v[1], chain=chain)
+        n["expand_sites"] = n.get("expand_sites", 0) + (_quiet(lambda: r_scalar_dim_expand(ctx, g, chain=chain)) or 0)
         # S-THREAD: same-named optional parameter not forwarded
         og = origins(g)
         for c in calls_in(g.node):
